@@ -57,6 +57,19 @@ def r2_blend(ctx, p, RULE="C10-R2"):
                     plain = len(gs_) == 1 and gs_[0][0] == "some" and _re.match(r"^<std::slice::Iter<'a, T> as std::iter::Iterator>::next\((?:[^()]*::(?:into_iter|iter)\()?self\.parameters\)?\)$", show(gs_[0][1]))
                     if plain and v_[0] == "call" and v_[1] == "model::mean_vari::MeanVari::weighted" and show(v_[2][0]) == "(%s as Some).0" % show(gs_[0][1]) and show(v_[2][1]) == "weight":
                         okp = True
+                    # ... or the pair written out: MeanVari(mean * weight, vari * weight) of the element
+                    if plain and v_[0] == "agg" and v_[1].endswith("MeanVari::MeanVari") and len(v_[2]) == 2:
+                        el_ = "(%s as Some).0" % show(gs_[0][1])
+
+                        def at_(e):
+                            if e[0] == "field" and e[2] in ("0", "1") and show(e[1]) == el_:
+                                return ("EL", e[2])
+                            if e[0] == "arg" and show(e) == "weight":
+                                return ("W",)
+                            return None
+                        W_ = Poly.atom(("W",))
+                        if to_poly(v_[2][0], at_) == Poly.atom(("EL", "0")) * W_ and to_poly(v_[2][1], at_) == Poly.atom(("EL", "1")) * W_:
+                            okp = True
             if okp:
                 ctx.ok(RULE, "mul: parameters = every MeanVari.weighted(weight)", mb.loc())
             else:
